@@ -1137,6 +1137,13 @@ static int parse_set(vnacal_load_state_t *vlsp, yaml_node_t *node)
 		vcp->vc_filename, node->start_mark.line + 1);
 	return -1;
     }
+    if (rows < 1 || columns < 1 ||
+	    MAX(rows, columns) > VNACAL_MAX_DIMENSION) {
+	_vnacal_error(vcp, VNAERR_SYNTAX,
+		"%s (line %ld) error: invalid calibration dimensions %d x %d",
+		vcp->vc_filename, node->start_mark.line + 1, rows, columns);
+	return -1;
+    }
     if (vlsp->vls_major_version == 0) {
 	if (type != (vnacal_type_t)-1 && type != VNACAL_E12) {
 	    _vnacal_error(vcp, VNAERR_SYNTAX,
